@@ -38,6 +38,11 @@ def oracle(req, impl, build):
     return O.std_oracle(req, impl) if req.startswith("std") else O.alnum_oracle(req, impl)
 
 
+def panic_with_words_left(req, left, build):
+    """drawing a standard value never panics by itself (the only panic the harness can cause is the scripted words running out)"""
+    return "the draw panicked with %d scripted words still unread (not the word source running dry): no valid value was returned" % left
+
+
 def extra(binary, build, tier, rng):
     """every Unicode scalar value is reachable and equally weighted: exact preimage counting of boundary scalars by interval search"""
     from .preimage_oracle import Prober, count_values
@@ -45,8 +50,6 @@ def extra(binary, build, tier, rng):
     prof = "release" if build == "release" else "debug"
     def idx(cp):      # position of a scalar value among all scalar values
         return cp if cp < 0xD800 else cp - 0x800
-    def mk(w):
-        return "std ty=char n=1 profile=%s words=%d" % (prof, w)
     def parse(res):
         f = parse_ok(res)
         if f is None:
@@ -54,14 +57,20 @@ def extra(binary, build, tier, rng):
         cp = int(f[0])
         return idx(cp) if (cp < 0xD800 or 0xE000 <= cp < 0x110000) else -1
     r = 0x110000 - 0x800
-    p = Prober(binary, mk, parse)
     scalars = [0, 1, 0x41, 0xD7FF, 0xE000, 0xE001, 0xFFFF, 0x10000, 0x10FFFE, 0x10FFFF]
-    msg, info = count_values(p, r, 64, [idx(c) for c in scalars], rng, "StandardUniform<char>")
-    if msg == "inconclusive":
-        yield {"kind": "note", "text": "StandardUniform<char>: preimage counting inconclusive for this implementation (%s)" % (info,)}
-    elif msg:
-        yield {"kind": "oracle", "build": build, "request": mk(info[min(info)][0]), "impl": str(info)[:600], "model": "", "oracle": msg}
-    yield {"kind": "count", "what": "char-preimage-probes", "n": p.calls}
+    calls = 0
+    # every public way to a StandardUniform char: next(), sample(&StandardUniform), the trait method, Random::fill
+    for path in ("", " path=stdsample", " path=stdtrait", " path=stdfill"):
+        def mk(w, path=path):
+            return "std%s ty=char n=1 profile=%s words=%d" % (path, prof, w)
+        p = Prober(binary, mk, parse)
+        msg, info = count_values(p, r, 64, [idx(c) for c in scalars], rng.fork("char" + path), "StandardUniform<char>" + path)
+        if msg == "inconclusive":
+            yield {"kind": "note", "text": "StandardUniform<char>%s: preimage counting inconclusive for this implementation (%s)" % (path, info)}
+        elif msg:
+            yield {"kind": "oracle", "build": build, "request": mk(info[min(info)][0]), "impl": str(info)[:600], "model": "", "oracle": msg}
+        calls += p.calls
+    yield {"kind": "count", "what": "char-preimage-probes", "n": calls}
     yield from grid_counts(binary, build, prof)
     yield from alnum_exact(binary, build)
 
